@@ -35,6 +35,7 @@ PROPS = [
  ("fix: thumbnail segments listed by a low-latency MPD", ["C02"]),
  ("fix: a patch request without publishTime", ["C11"]),
  ("fix: status-code patterns with a non-zero availability start time", ["C14"]),
+ ("fix: an ingest session for a SegmentTimeline URL with generated subtitles crashed", ["C08", "C16"]),
  ("fix: MPD patch: adaptation sets other than video/audio", ["C11"]),
  ("fix: EndTime read ResetTime without the limiter mutex", ["C20"]),
  ("fix: receiver: the stream table was read and written by concurrent upload handlers", ["C19"]),
